@@ -432,6 +432,15 @@ def wiring_pre_build(ctx):
     return ok, msg
 
 
+def all_pre_build(ctx):
+    """regenerate EVERY generated Lean file (all translate_*.py of the harness) from the tested tree"""
+    import translate_all
+
+    ok, msg, summary = translate_all.write_all(REPO, LEAN)
+    ctx.notes.append(f"translators: {msg}")
+    return ok, msg
+
+
 # ----------------------------------------------------------------------------- runner
 def run_check(prop, mod, argv):
     """Generic check runner.  `mod` provides:
